@@ -223,11 +223,11 @@ def model_apply(U, M, name, args):
         okind, items = args[0]
         O = {}
         for it in items:
-            O[U.kf(it)] = it
+            O[U.kf(it)] = UNSPEC if okind == "keys" else it  # (a built-in set of bare keys selects by key and brings no items)
         base = name.lstrip("i") if name.startswith("i") and name != "iand" else name
         base = {"ior": "or", "iand": "and", "isub": "sub", "ixor": "xor"}.get(name, name)
-        conflict = [k for k in O if k in M and not same(M[k], O[k])]
-        if okind == "set" and base == "and" and not _set_operand_agrees(M, O, items):
+        conflict = [k for k in O if k in M and O[k] is not UNSPEC and not same(M[k], O[k])]
+        if okind in ("set", "fset") and base == "and" and not _set_operand_agrees(M, O, items):
             return UNSPEC  # built-in set membership is by item (hash/eq), not by key: both readings are defensible
         # (`-` and `^` are `-=` / `^=` on a copy: by key, whatever kind of set the other operand is)
         if U.flag and conflict:
@@ -249,8 +249,8 @@ def model_apply(U, M, name, args):
         O = {}
         for it in items:
             O[U.kf(it)] = it
-        conflict = [k for k in O if k in M and not same(M[k], O[k])]
-        if conflict or (okind == "set" and not _set_operand_agrees(M, O, items)):
+        conflict = [k for k in O if k in M and O[k] is not UNSPEC and not same(M[k], O[k])]
+        if conflict or (okind in ("set", "fset") and not _set_operand_agrees(M, O, items)):
             return UNSPEC
         if name == "le":
             return ("bool", set(M) <= set(O))
@@ -275,7 +275,7 @@ def real_apply(U, s, name, args):
         s.clear()
     else:
         okind, items = args[0]
-        other = U.new_set(items, flag=False) if okind == "kset" else set(items)
+        other = U.new_set(items, flag=False) if okind == "kset" else (frozenset(items) if okind == "fset" else ({U.kf(it) for it in items} if okind == "keys" else set(items)))
         if name == "ior":
             s2 = s
             s2 |= other
@@ -355,7 +355,7 @@ def compare_view(U, s, M, probes):
     chk("items()", obs(lambda: {k: id(v) for k, v in s.items()}), ("ok", {k: id(v) for k, v in M.items()}))
     for k in probes["keys"]:
         chk(f"{k!r} in s", obs(lambda: k in s), ("ok", k in M))
-        chk(f"s[{k!r}]", obs(lambda: s[k]), ("ok", M[k]) if k in M else ("exc", "any"), True)
+        chk(f"s[{k!r}]", obs(lambda: s[k]), ("ok", M[k]) if k in M else ("exc", "key"), True)  # (also where the key function cannot key the probe)
         chk(f"get({k!r})", obs(lambda: s.get(k)), ("ok", M.get(k)), True)
     if not U.self_keyed:
         for it in probes["items"]:
@@ -463,6 +463,16 @@ def all_ops(U, operand_limit=None, rng=None):
     for name in BINOPS:
         for o in operands:
             ops.append((name, (("operand",) + o,)))
+    # built-in sets of bare *keys* select by key (operators that only take away; what a bare key would add is not an item),
+    # and frozensets of items compare like sets
+    key_operands = [c for kind, c in operands if kind == "kset" and c]
+    for name in ("and", "iand", "sub", "isub", "isdisjoint"):
+        for c in key_operands:
+            ops.append((name, (("operand", "keys", c),)))
+    if U.hashable_items:
+        for name in ("eq", "le", "ge", "sub", "and"):
+            for c in [c for kind, c in operands if kind == "set"]:
+                ops.append((name, (("operand", "fset", c),)))
     return ops
 
 
